@@ -19,17 +19,18 @@ from crosshair.tracers import NoTracing
 PROP = "C14"
 FUNCTIONS = ["parse_args", "fmtstr", "fmtfuncs.*", "FmtStr.copy_with_new_atts", "FmtStr.new_with_atts_removed",
              "FmtStr.copy_with_new_str", "FmtStr.shared_atts", "FrozenAttributes.extend", "FrozenAttributes.remove"]
-BOUNDS = ("base FmtStr: 1..3 runs with attribute dictionaries from an 8-entry catalogue, run lengths >= 0 unbounded; colour "
+BOUNDS = ("base FmtStr: 1..3 runs with attribute dictionaries from a 9-entry catalogue, run lengths >= 0 unbounded; colour "
           "numbers: all of Z; style values: both bools; names: a 60-entry catalogue of valid / differently-cased / malformed "
           "names in every spelling (positional, style=, fg=, bg=); operation sequences of length <= 2 (thorough 3) over a "
-          "22-entry operation catalogue, nested and in one call; all fmtfuncs")
+          "24-entry operation catalogue, nested and in one call; all fmtfuncs")
 STUBS = ["text rendered from a symbolic int (only the ValueError messages here) is a placeholder", "SegStr text domain (texts abstract: the code under test never looks at characters)",
          "independent re-statement of the attribute specification (spec_parse) as oracle"]
 
 COLOURS = ("black", "red", "green", "yellow", "blue", "magenta", "cyan", "gray")
 BASE_ATTS = [{}, {"fg": 31}, {"bg": 44}, {"bold": True}, {"bold": False, "fg": 35}, {"fg": 32, "bg": 41, "underline": True},
-             {"invert": True, "dark": True}, {"italic": True, "blink": True, "bg": 47}]
-BASES = [(0,), (1,), (5,), (3, 1), (1, 1), (4, 6), (5, 5), (0, 7), (3, 0, 3), (1, 2, 5), (6, 6, 6), (4, 1, 7)]
+             {"invert": True, "dark": True}, {"italic": True, "blink": True, "bg": 47}, {"fg": 34}]
+BASES = [(0,), (1,), (5,), (3, 1), (1, 1), (4, 6), (5, 5), (0, 7), (3, 0, 3), (1, 2, 5), (6, 6, 6), (4, 1, 7),
+         (1, 8), (8, 3, 1)]      # runs with the same attribute names and different values
 
 NAMES = (["red", "gray", "black", "on_blue", "on_gray", "on_black", "bold", "dark", "italic", "underline", "blink", "invert"]
          + ["RED", "Red", "ON_BLUE", "On_Blue", "on_BLUE", "BOLD", "Bold", "Invert"]
@@ -44,7 +45,9 @@ OPS = ([("pos", n) for n in ("red", "blue", "on_red", "on_cyan", "bold", "underl
        + [("fgname", "green"), ("bgname", "yellow"), ("fgnum", None), ("bgnum", None)]
        + [("stylekw", s) for s in ("bold", "dark", "blink")]
        + [("func", n) for n in ("red", "on_blue", "bold", "italic", "plain")]
-       + [("remove", ("fg",)), ("remove", ("bold",)), ("remove", ("bg", "underline"))])
+       + [("remove", ("fg",)), ("remove", ("bold",)), ("remove", ("bg", "underline"))]
+       # several attributes in ONE call (more new attributes than a run may already carry)
+       + [("multi", ("blue", "bold")), ("multi", ("on_green", "underline", "magenta"))])
 
 
 def instances(tier, seed):
@@ -59,7 +62,7 @@ def instances(tier, seed):
     L = 2
     for first in range(nops):
         out.append({"name": "seq-first%02d" % first, "fn": "seq", "timeout": T,
-                    "params": {"first": first, "L": L, "sample": tier == "quick", "nbases": 2 if tier == "quick" else 4}})
+                    "params": {"first": first, "L": L, "sample": tier == "quick", "nbases": 2 if tier == "quick" else 5}})
     if tier != "quick":
         for first in range(nops):
             for second in range(0, nops, 3):
@@ -268,6 +271,8 @@ def _apply_real(f, op, num, b):
         return getattr(fmtfuncs, arg)(f)
     if kind == "remove":
         return f.new_with_atts_removed(*arg)
+    if kind == "multi":
+        return fmtstr(f, *arg)
     raise KeyError(kind)
 
 
@@ -289,10 +294,13 @@ def _apply_spec(atts_list, op, num, b):
         new = {arg: b}
     elif kind == "func":
         new = {} if arg == "plain" else spec_parse((arg,), {})
+    elif kind == "multi":
+        new = spec_parse(tuple(arg), {})
     return [sdisp(dict(a, **new)) for a in atts_list]
 
 
 SEQS = []     # the instance's operation tuples, computed once outside the tracer
+SEQ_BASES = [12, 5, 1, 4, 11]
 
 
 def _seqs():
@@ -314,11 +322,11 @@ def _seqs():
 
 def seq(n0: int, n1: int, n2: int, bsel: int, osel: int, num: int, b1: bool, b2: bool, b3: bool) -> bool:
     """
-    pre: n0 >= 0 and n1 >= 0 and n2 >= 0 and 0 <= bsel < P.get("nbases", 4) and 0 <= osel < len(SEQS) and 30 <= num <= 37
+    pre: n0 >= 0 and n1 >= 0 and n2 >= 0 and 0 <= bsel < P.get("nbases", 5) and 0 <= osel < len(SEQS) and 30 <= num <= 37
     post: _
     """
     from crosshair.core import realize
-    bi = [1, 5, 4, 11][realize(bsel)]
+    bi = SEQ_BASES[realize(bsel)]
     ops = [OPS[i] for i in SEQS[realize(osel)]]
     bs = [b1, b2, b3]
     base = _base(bi, [n0, n1, n2], SegStr.source)
@@ -496,7 +504,7 @@ def concrete(fn, params, args):
                 "observed": repr(_atts_list(r)), "expected": repr(_expect(before, want)), "call": call}
     if fn == "seq":
         n0, n1, n2, bsel, osel, num, b1, b2, b3 = args
-        bi = [1, 5, 4, 11][bsel]
+        bi = SEQ_BASES[bsel]
         ops = [OPS[i] for i in _seqs()[osel]]
         base = _base(bi, [n0, n1, n2], src_text)
         before = _atts_list(base)
